@@ -124,7 +124,7 @@ def run(ctx, rep):
     # different value enums are different objects even when their names agree, so a result (or a cache) from one family must not
     # leak into another
     from ..bind import bound_class as _bc20
-    ValC = _bc20(m, it, ClassRef(MODELS, 'Mval'), only=('__eq__', '__hash__'), with_eq=True)
+    ValC = _bc20(m, it, ClassRef(MODELS, 'Mval'), only=('__eq__', '__hash__', '__bool__', '__len__'), with_eq=True)      # (+ truthiness, should the class define it: `having` filters with it)
     ValC.__repr__ = lambda s_: f'<{s_.name}>'
     rep.consult(m.relfile(MODELS) + ' Mval.__eq__ / __hash__')
     for rnd in (1, 2):
